@@ -23,7 +23,7 @@ def main(tier, replay=None):
         dict(name="crash-two-messages", opts=[M, "msgs=l1+r2", "signals=0"], bounds="0,0,1,2", total=3, tier="thorough", deadline=1800),
         dict(name="crash-and-fault-l1r1", opts=[M, "msgs=l1r1", "signals=0"], bounds="0,1,1,0", total=2, tier="thorough", deadline=1800),
     ]
-    run_families(res, "C03", tier, fams)
+    plain_src = run_families(res, "C03", tier, fams)
     res.rule = ("each execution is a complete history of the real qmail-send + qmail-clean (+ qmail-queue for injections and bounces) under the "
                 "virtual kernel with controller-scripted spawners and a virtual clock, run until the queue is empty with every unscripted "
                 "attempt answered success; deviations from that default are enumerated exhaustively up to the bound: which in-flight delivery "
@@ -34,4 +34,5 @@ def main(tier, replay=None):
     res.assumptions = ["virtual kernel (appendix A), crash model of conf-qmail", "bounce/N is documented as not crash-proof: recipients whose only missing artefact after lost data is their bounce paragraph are exempt",
                        "duplicate delivery after a crash is allowed"]
     res.require_nonzero("evaluations", "messages_finished", "bounces_queued", "reports_Z", "reports_D", "reports_garbage", "reports_stray", "spawner_lost", "machine_crashes", "daemon_kills", "marks_written", "faults_injected")
+    lib_conformance(res, rundir("C03lib"), plain_src, ['io', 'bytes'], tier, asan=False)
     return res.finish()
